@@ -44,7 +44,11 @@ def evolution_job(r, cluster, callee_cluster, kind, cv=None, target="?"):
         n["cluster"] = target if target != "?" else r.choice([c for c in ("vy", "vz", None) if c != callee_cluster])
         steps.append({"do": "set", "node": n})
         direction = "%s->%s" % ("default" if callee_cluster is None else "named", "default" if n["cluster"] is None else "named")
-    steps += [{"do": "proc", "hashseed": "0"}, {"do": "call", "name": "m1"}, {"do": "probe", "name": "m1"}]
+    if r.random() < 0.5:
+        steps += [{"do": "proc", "hashseed": "0"}, {"do": "call", "name": "m1"}, {"do": "probe", "name": "m1"}]
+    else:      # the other order of use in the new process: listings first, then the memento, then the call
+        steps += [{"do": "proc", "hashseed": "0"}, {"do": "probe", "name": "m1", "listfirst": True}, {"do": "call", "name": "m1"},
+                  {"do": "probe", "name": "m1"}]
     return {"prog": p0, "steps": steps, "clusters": ["vy"], "kind": kind, "cluster": cluster, "callee_cluster": callee_cluster, "cv": cv,
             "direction": direction if kind == "recluster" else ""}
 
@@ -77,7 +81,11 @@ def evolve_events(job, t):
     if len(calls) < 2 or len(probes) < 2:
         return [{"op": "Evolve", "kind": job["kind"], "served": False, "same": False, "memento": False, "extok": False, "listok": False,
                  "exc": "history incomplete: " + "; ".join(str(e.get("exc")) for e in t["ev"] if e.get("exc"))[:200]}]
-    c0, c1, p0, p1 = calls[0], calls[1], probes[0], probes[1]
+    c0, c1, p0, p1 = calls[0], calls[-1], probes[0], probes[-1]
+    for px in probes[1:-1]:          # a probe made before the call in the second process: it must work like the last one
+        if px.get("exc") or not px.get("memento"):
+            p1 = px
+            break
     exc = "; ".join(x for x in [c0.get("exc", ""), p0.get("exc", "")] if x)
     ran0 = ["m1", "m2", "m3"] if job.get("argfn") else ["m1", "m2"]
     out.append({"op": "Evolve", "kind": "baseline", "served": c0.get("ran") == ran0, "same": bool(c0.get("same")),
